@@ -1,6 +1,7 @@
 import Proofs.C15
 import Proofs.GenPartial
 import Proofs.GenTables
+import Proofs.GenWalk
 #print axioms Xsel.C15.exec_result_or_error
 #print axioms Xsel.C15.build_total
 #print axioms Xsel.C15.truncated_json_is_error
@@ -8,3 +9,5 @@ import Proofs.GenTables
 #print axioms Xsel.Gen.binary_handlers_have_two_children
 #print axioms Xsel.C15.handler_walk_never_panics
 #print axioms Xsel.C15.handler_walk_result_or_error
+#print axioms Xsel.C15.any_forest_never_panics
+#print axioms Xsel.Gen.handlers_fit_productions
